@@ -1509,7 +1509,12 @@ def unknown_scripts(rng, count, policies):
             keep_set = set(keep) - {x}
             methods = [(m, sh, vp) for m, sh, vp in methods if all(v in keep_set for v in vp)]
             defs = [(m, d, vp) for m, d, vp in defs if any(m == mm for mm, _, _ in methods) and all(v in keep_set for v in vp)]
-            if not methods:
+            # a policy with classes but no method at all: update leaves the dispatch data empty and every v-table pointer null,
+            # the unregistered class must be diagnosed all the same
+            nometh = mode == "vptr" and rng.random() < 0.35
+            if nometh:
+                methods, defs = [], []
+            elif not methods:
                 continue
             chain_root = None
             if mode == "vptr":
@@ -1529,7 +1534,8 @@ def unknown_scripts(rng, count, policies):
             for m, d, vp in defs:
                 s.defn(m, d, vp)
             s.update()
-            s.layout()
+            if not nometh:
+                s.layout()
             if mode == "call":
                 for m, sh, vp in methods:
                     acceptable = [i for i, v in enumerate(vp) if v in anc[x]]   # positions where an x object can be passed in C++
